@@ -577,4 +577,7 @@ def run(P, R, tier):
     ll = P.need_fn('module_load_list')
     nt = rules.full_traversal(P, R, 'C20.MPT.6', ll, lambda c: any(is_var(x) and x.get('t', '').startswith('struct set_node') for x in walk(c)), 'walk over the module registry', error_returns=True)
     R.floor('C20.MPT.6', 2, 'registry walks of the list loader')
+    # the walk stamp stored on a module is not truncated (a 2-bit field aliases pass 5 with pass 1)
+    rules.narrowing_fields(P, R, 'C20.WID.1', ('src/module.c',))
+    rules.counter_widths(P, R, 'C20.WID.2', recs=('module',))
     return EXPLANATION, ASSUMPTIONS
